@@ -1170,3 +1170,50 @@ M("c01_prepare_up_end_not_aligned", ["C01"], ["C01.R6"], [
 }
 
 /// Prepares""")])
+
+M("c02_extend_zeroed_rev_zeroes_wrong_end", ["C02"], ["C02.R3"], [
+    ("src/features/bytemuck_or_zerocopy.rs", """                        let new_len = self.len() + additional;
+                        self.end.sub(new_len).write_bytes(0, additional);""", """                        let new_len = self.len() + additional;
+                        self.end.sub(additional).write_bytes(0, additional);""")], tier="thorough")
+M("c02_extend_zeroed_sets_len_before_zeroing", ["C02"], ["C02.R3"], [
+    ("src/features/bytemuck_or_zerocopy.rs", """                        ptr.add(len).write_bytes(0, additional);
+                        self.set_len(len + additional);
+                    }
+
+                    Ok(())
+                }
+
+                #[inline]
+                fn generic_resize_zeroed<E: ErrorBehavior>(&mut self, new_len: usize) -> Result<(), E> {
+                    let len = self.len();
+
+                    if new_len > len {
+                        self.generic_extend_zeroed(new_len - len)
+                    } else {
+                        self.truncate(new_len);
+                        Ok(())
+                    }
+                }
+            }
+
+            impl<T: $trait, A: BumpAllocatorTyped> PrivateVecExt for BumpVec<T, A> {""", """                        self.set_len(len + additional);
+                        ptr.add(len + 1).write_bytes(0, additional - 1);
+                    }
+
+                    Ok(())
+                }
+
+                #[inline]
+                fn generic_resize_zeroed<E: ErrorBehavior>(&mut self, new_len: usize) -> Result<(), E> {
+                    let len = self.len();
+
+                    if new_len > len {
+                        self.generic_extend_zeroed(new_len - len)
+                    } else {
+                        self.truncate(new_len);
+                        Ok(())
+                    }
+                }
+            }
+
+            impl<T: $trait, A: BumpAllocatorTyped> PrivateVecExt for BumpVec<T, A> {""")], tier="thorough")
